@@ -1067,6 +1067,18 @@ impl<'a> VisitMut for Rewriter<'a> {
                 self.pending_lets.push(parse_quote!(let #pn = #g;));
                 *e = parse_quote!(#f(&#x, #pn));
             }
+            Expr::MethodCall(mc) if mc.method == "find" && mc.args.len() == 1
+                && matches!(&*mc.receiver, Expr::MethodCall(im) if im.method == "iter" && im.args.is_empty())
+                && self.expr_map.iter().any(|(f, _)| f == "__adapter_iter_find") =>
+            {
+                // R32 (find): `X.iter().find(pred)` -> stand-in with a contract over pred's own contract
+                let to = self.expr_map.iter().find(|(f, _)| f == "__adapter_iter_find").map(|(_, t)| t.clone()).unwrap();
+                let f = syn::Ident::new(&to, proc_macro2::Span::call_site());
+                let x = match &*mc.receiver { Expr::MethodCall(im) => im.receiver.clone(), _ => unreachable!() };
+                let c = mc.args.first().unwrap().clone();
+                self.logr("R32", line, format!("`.iter().find(pred)` -> {}(&.., pred)", to));
+                *e = parse_quote!(#f(&#x, #c));
+            }
             Expr::MethodCall(mc) if mc.method == "fold" && mc.args.len() == 2
                 && matches!(&*mc.receiver, Expr::MethodCall(im) if im.method == "iter" && im.args.is_empty())
                 && self.expr_map.iter().any(|(f, _)| f == "__adapter_iter_fold") =>
